@@ -10,8 +10,9 @@
 EXTENDS Naturals, FiniteSets, TLC, Json
 
 CONSTANTS Emit, MaxProblems
-Commands == {"build", "lint", "breaking", "format"}
-Problems == {"compile-error", "malformed-import", "missing-import", "lint-violation", "multi-line-lint", "breaking-change", "deleted-file", "format-diff"}
+\* format = `format --exit-code`, format-write = `format --exit-code -w` (rewrites the files and must still tell)
+Commands == {"build", "lint", "breaking", "format", "format-write"}
+Problems == {"compile-error", "malformed-import", "missing-import", "many-lint-violations", "lint-violation", "multi-line-lint", "breaking-change", "deleted-file", "format-diff"}
 Operational == {"none", "bad-flag", "missing-input", "bad-config"}
 Spellings == {"dot", "absolute", "dot-slash", "protofile-with-package"}
 
@@ -26,6 +27,7 @@ Init == /\ command \in Commands
         \* keep the product meaningful: operational errors and exotic spellings are explored on their own
         /\ (operational # "none" => (problems \subseteq {"lint-violation"} /\ spelling = "dot" /\ ~hostilePath))
         /\ (spelling = "protofile-with-package" => (command \in {"build", "lint"} /\ ~hostilePath))
+        /\ (command = "format-write" => (spelling = "dot" /\ ~hostilePath))
         /\ (hostilePath => spelling = "dot")
         \* a file that does not compile cannot be compared: breaking problems need a compiling tree
         /\ ~({"compile-error", "malformed-import", "missing-import"} \cap problems # {} /\ {"breaking-change", "deleted-file"} \cap problems # {})
@@ -35,10 +37,11 @@ Spec == Init /\ [][Next]_vars
 \* which planted problems a command reports
 Relevant(c) ==
   CASE c = "build"    -> {"compile-error", "malformed-import", "missing-import"}
-    [] c = "lint"     -> {"compile-error", "malformed-import", "missing-import", "lint-violation", "multi-line-lint"}
+    \* many-lint-violations: one file with 70 violations, several KiB of output in every format
+    [] c = "lint"     -> {"compile-error", "malformed-import", "missing-import", "lint-violation", "multi-line-lint", "many-lint-violations"}
     [] c = "breaking" -> {"compile-error", "malformed-import", "missing-import", "breaking-change", "deleted-file"}
     \* the file planted for the multi-line range (two fields on one line) is not canonically formatted either
-    [] c = "format"   -> {"format-diff", "multi-line-lint"}
+    [] c \in {"format", "format-write"} -> {"format-diff", "multi-line-lint"}
 \* the file under the hostile directory declares a package that does not match it (a lint violation) and
 \* lost a field with respect to the previous tree (a breaking change)
 HostileReported == IF hostilePath /\ command \in {"lint", "breaking"} THEN {"hostile-path"} ELSE {}
@@ -47,10 +50,10 @@ Reported == (problems \cap Relevant(command)) \cup HostileReported
 \* format fail like an operational error ("Failure: <file>:<line>:<col>: syntax error", status 1); the
 \* repository's own TestFormatInvalidInputDoesNotCreateDirectory pins that status.  Missing imports are
 \* invisible to format.
-FormatParseFailure == command = "format" /\ {"compile-error", "malformed-import"} \cap problems # {}
+FormatParseFailure == command \in {"format", "format-write"} /\ {"compile-error", "malformed-import"} \cap problems # {}
 Exit == IF operational # "none" \/ FormatParseFailure THEN "other"
         ELSE IF Reported # {} THEN "hundred" ELSE "zero"
-PrintsAnnotations == operational = "none" /\ Reported # {} /\ command # "format"
+PrintsAnnotations == operational = "none" /\ Reported # {} /\ command \notin {"format", "format-write"}
 
 \* ---- laws ----
 ExitClassesDisjoint == Exit \in {"zero", "hundred", "other"}
